@@ -105,8 +105,8 @@ func (o *Overlay) Maps(dir string, patterns ...string) error {
 		if strings.Contains(p.PkgPath, "/test") || strings.HasSuffix(p.PkgPath, "testutils") {
 			continue
 		}
-		for i, f := range p.Syntax {
-			file := p.CompiledGoFiles[i]
+		for _, f := range p.Syntax {
+			file := p.Fset.Position(f.Pos()).Filename
 			if strings.HasSuffix(file, "_test.go") {
 				continue
 			}
@@ -150,54 +150,41 @@ func (o *Overlay) rewriteMapRanges(p *packages.Package, f *ast.File, file, dir s
 		if rs.Tok != token.DEFINE && rs.Key != nil {
 			return 0, fmt.Errorf("%s: map range with assignment (=) is not rewritable", e.site)
 		}
-		// for k, v := range m { body }  =>  for _, k := range verifhook.Keys(site, m) { v := m[k]; body }
-		mexpr := rs.X
+		// for k, v := range m { body }  =>  for _, verifKV := range verifhook.Pairs(site, m) { k := verifKV.K; v := verifKV.V; body }
+		// (the ranged expression is evaluated once, as in the original statement)
 		keyIdent, _ := rs.Key.(*ast.Ident)
 		var valIdent *ast.Ident
 		if rs.Value != nil {
 			valIdent, _ = rs.Value.(*ast.Ident)
 		}
-		if rs.Key == nil {
-			keyIdent = ast.NewIdent("_")
-		}
-		if keyIdent == nil || (rs.Value != nil && valIdent == nil) {
+		if (rs.Key != nil && keyIdent == nil) || (rs.Value != nil && valIdent == nil) {
 			return 0, fmt.Errorf("%s: map range with non-identifier variables is not rewritable", e.site)
 		}
-		kname := keyIdent.Name
-		needKey := valIdent != nil && valIdent.Name != "_"
-		if kname == "_" && needKey {
-			kname = "verifKey"
-		}
 		call := &ast.CallExpr{
-			Fun:  &ast.SelectorExpr{X: ast.NewIdent("verifhook"), Sel: ast.NewIdent("Keys")},
-			Args: []ast.Expr{&ast.BasicLit{Kind: token.STRING, Value: strconv.Quote(e.site)}, mexpr},
+			Fun:  &ast.SelectorExpr{X: ast.NewIdent("verifhook"), Sel: ast.NewIdent("Pairs")},
+			Args: []ast.Expr{&ast.BasicLit{Kind: token.STRING, Value: strconv.Quote(e.site)}, rs.X},
 		}
-		if _, simple := mexpr.(*ast.Ident); !simple {
-			if _, sel := mexpr.(*ast.SelectorExpr); !sel {
-				if needKey {
-					return 0, fmt.Errorf("%s: ranged expression is neither an identifier nor a selector: evaluate it into a variable first", e.site)
-				}
-			}
+		var pre []ast.Stmt
+		def := func(name, field string) {
+			pre = append(pre, &ast.AssignStmt{
+				Lhs: []ast.Expr{ast.NewIdent(name)}, Tok: token.DEFINE,
+				Rhs: []ast.Expr{&ast.SelectorExpr{X: ast.NewIdent("verifKV"), Sel: ast.NewIdent(field)}},
+			})
+		}
+		if keyIdent != nil && keyIdent.Name != "_" {
+			def(keyIdent.Name, "K")
+		}
+		if valIdent != nil && valIdent.Name != "_" {
+			def(valIdent.Name, "V")
+		}
+		if len(pre) == 0 {
+			pre = append(pre, &ast.AssignStmt{Lhs: []ast.Expr{ast.NewIdent("_")}, Tok: token.ASSIGN, Rhs: []ast.Expr{ast.NewIdent("verifKV")}})
 		}
 		rs.Key = ast.NewIdent("_")
-		rs.Value = ast.NewIdent(kname)
+		rs.Value = ast.NewIdent("verifKV")
 		rs.Tok = token.DEFINE
 		rs.X = call
-		if needKey {
-			assign := &ast.AssignStmt{
-				Lhs: []ast.Expr{ast.NewIdent(valIdent.Name)},
-				Tok: token.DEFINE,
-				Rhs: []ast.Expr{&ast.IndexExpr{X: mexpr, Index: ast.NewIdent(kname)}},
-			}
-			rs.Body.List = append([]ast.Stmt{assign}, rs.Body.List...)
-		}
-		if kname == "_" {
-			rs.Value = nil
-			rs.Key = ast.NewIdent("_")
-			// for _ = range keys: keep a plain counted loop
-			rs.Key = nil
-			rs.Tok = token.ILLEGAL
-		}
+		rs.Body.List = append(pre, rs.Body.List...)
 		o.Sites = append(o.Sites, e.site)
 	}
 	// add the import
